@@ -134,7 +134,7 @@ def run(ctx):
                 c.ob("R2", False, f, "done-path-without-error-path",
                      f"{f.short} sends done.invoke.* for a finished child machine but has no failure path at all: a child that ends in "
                      f"error (or is stopped) produces no event and no _fail()", dones[0])
-    c.floor("R2", "service completion functions", n, 4)
+    c.floor("R2", "service completion functions", n, 3)
     # ---- R3 activation identity of done/error events ---------------------------------------
     de = p.module("events").classes.get("DoneEvent")
     fields = [s.target.id for s in de.node.body if isinstance(s, ast.AnnAssign) and isinstance(s.target, ast.Name)]
